@@ -79,7 +79,11 @@ def _gm_contract(clsname):
         'params': {'tlist': make_group, 'cls': make_cls_const(clsname)},
         'int_lists': ('opens',),
         # C09: the group ends with the visited closing token (its position in the current list is close_idx)
-        'callsite_asserts': {'group_tokens': ['tlist.tokens[close_idx] is token', 'close_idx > open_idx']},
+        'callsite_asserts': {'group_tokens': ['tlist.tokens[close_idx] is token', 'close_idx > open_idx',
+                                              # ... and it IS a closing token of the class (type and spelling)
+                                              'token.match(*cls.M_CLOSE)']},
+        # C09: only a token that matches the class's opening pattern (type and spelling) is remembered as an opener
+        'append_asserts': {'opens': ['token.match(*cls.M_OPEN)', 'item == tidx']},
         'loops': {'0': GM_LOOP},
         'ghost_init': staticmethod(lambda ex, st: st.ghost.__setitem__('WAS_RECURSED', Func('spec.WAS_RECURSED', model=_recursed))),
         'requires': [], 'ensures': [], 'raises': [], 'serves': ['C03', 'C09', 'C02', 'C07'],
@@ -221,7 +225,12 @@ class group_generic:
               'match': make_pure_pred('match'), 'valid_prev': make_pure_pred('valid_prev'),
               'valid_next': make_pure_pred('valid_next'), 'post': make_post_G,
               'extend': _make_bool('extend'), 'recurse': _make_bool('recurse')}
-    callsite_asserts = {'group_tokens': ['from_idx <= tidx', 'tidx <= to_idx']}
+    callsite_asserts = {'group_tokens': [
+        'from_idx <= tidx', 'tidx <= to_idx',
+        # C09 "later passes ... never take the delimiters of the enclosing group": no element of the grouped range
+        # [from_idx, to_idx] satisfies the guard's predicate _is_delimiter(tlist, .)  (GENPRED0 = the element
+        # expression of the real any(...) guard, as a predicate)
+        'NOMATCH(GENPRED0, tlist, from_idx, to_idx + 1)']}
     ghost_init = staticmethod(lambda ex, st: st.ghost.__setitem__('WAS_RECURSED', Func('spec.WAS_RECURSED', model=_recursed)))
     loops = {'0': {
         'bind': _bind_prev,
